@@ -42,6 +42,12 @@ def make_symbolic(I, kind, name):
             return SSeq('str', [('s', fresh(name, IntSeq))], bound=(0, 127))
         if kind == 'none':
             return None
+        if kind == 'nonempty_str':
+            t = fresh(name, IntSeq)
+            P.assume(z3.Length(t) > 0)
+            return SSeq('str', [('s', t)])
+        if kind == 'logger':
+            return Opaque('object', 'logger', facts={'noraise', 'logger', 'truthy'})
         if kind == 'opaque':
             return Opaque('object', name)
         if kind == 'opaque_str':
@@ -115,6 +121,17 @@ def make_symbolic(I, kind, name):
         return [make_symbolic(I, kind[1], "%s[%d]" % (name, i)) for i in range(lens[k])]
     if tag == 'tuple':
         return tuple(make_symbolic(I, k, "%s[%d]" % (name, i)) for i, k in enumerate(kind[1:]))
+    if tag == 'model':
+        from . import envmodel
+        return envmodel.make(kind[1], I, name)
+    if tag == 'sdict':
+        from .sym import SDict
+        return SDict(name, kind[1], make_symbolic)
+    if tag == 'slist':
+        ek = kind[1]
+        n = fresh(name + "_len")
+        P.assume(n >= 0)
+        return pyvc.SList(name, n, lambda I2, tg: make_symbolic(I2, ek, "%s.%s" % (name, tg)))
     if tag == 'mutbytes':
         return pyvc.MutBytes(make_symbolic(I, 'bytes', name))
     raise OutOfFragment("unknown kind %r" % (kind,))
@@ -265,6 +282,7 @@ def prove_contract(session, c, max_paths=4000, time_budget=None, known=()):
             result = I.run_body(ex, None, None, pre_bound=body_locals)
         except pyvc.Raised as r:
             _check_raise(I, c, ex, r.exc, spec_locals, old, heap0, args, dict(when_vals))
+            _check_traces(I, c, key, 'raise', r.exc)
             return
         session.cover(key + "/cover.return")
         post_locals = dict(spec_locals)
@@ -277,6 +295,7 @@ def prove_contract(session, c, max_paths=4000, time_budget=None, known=()):
             t = w if not isinstance(w, bool) else z3.BoolVal(w)
             path.prove("%s/raises.%s.exact" % (key, rname), z3.Not(t), kind="raises")
         _check_frame(I, c, key, heap0, args)
+        _check_traces(I, c, key, 'return', None)
 
     n = pyvc.explore(session, task, name=key, max_paths=max_paths, time_budget=time_budget)
     return n
@@ -321,6 +340,19 @@ def _check_raise(I, c, ex, exc, spec_locals, old, heap0, args, when_vals):
             path.prove("%s/raises.%s.ensures" % (qn, rname), I.truth(v), kind="raises")
     if c.__dict__.get('frame_on_raise', False):
         _check_frame(I, c, qn, heap0, args)
+
+
+def _check_traces(I, c, key, outcome, exc):
+    """Trace predicates: native predicates over the event list of this path."""
+    for (name, fn) in getattr(c, 'traces_', []):
+        try:
+            r = fn(I.path.trace, outcome, exc)
+        except Exception as e:
+            r = "trace predicate crashed: %s: %s" % (type(e).__name__, e)
+        if r is True or r is None:
+            I.path.ok("%s/trace.%s" % (key, name), "trace")
+        else:
+            I.path.fail("%s/trace.%s" % (key, name), "trace", str(r))
 
 
 def heap_snapshot(I, roots):
@@ -527,6 +559,10 @@ def apply_contract(I, c, ex, args, kwargs):
                         continue
             t = I.truth(I.eval(node, e2))
             P.assume(t)
+    P.event('return', qn)
+    if not has_result and not result_bound:
+        # the contract says nothing about the returned value: callers must not assume None
+        return Opaque('object', 'unspecified-result-of-' + ex.name)
     return loc['result']
 
 
